@@ -87,6 +87,90 @@ def chain_cases(backends: tuple = ("asyncio", "trio")):
                                        "b_async": b_async, "api": api, "nested": nested, "racers": racers, "b_first": b_first, "cps": 1}
 
 
+WIDE = [type(f"W{i}", (), {}) for i in range(14)]
+
+
+def wide_cases(backends: tuple = ("asyncio", "trio")):
+    """One registration under a dozen types, one of which - at any position - is already taken."""
+    for n in (11, 12, 14):
+        for k in range(n):
+            for factory in (False, True):
+                for backend in backends:
+                    yield {"kind": "reentrant", "family": "wide", "backend": backend, "sched_seed": 0, "n": n, "taken": k, "factory": factory}
+
+
+def run_wide(case: dict, prop: str, classes: set[str]) -> Outcome:
+    out = Outcome()
+    n, k = case["n"], case["taken"]
+    desc = f"[{'factory' if case['factory'] else 'resource'} registered under {n} types, type #{k} already taken]"
+
+    def disc(cls: str, bucket: str, msg: str) -> None:
+        if cls in classes:
+            out.add(cls, f"{cls}:wide-{bucket}", msg + " " + desc)
+
+    async def main() -> None:
+        from asphalt.core import Context, ResourceConflict, ResourceEvent
+
+        async with Context() as ctx:
+            first = WIDE[k]()
+            if case["factory"]:
+                ctx.add_resource_factory(lambda: first, NAME, types=[WIDE[k]])
+            else:
+                ctx.add_resource(first, NAME, types=[WIDE[k]])
+            cm = ctx.resource_added.stream_events(max_queue_size=1000)
+            it = await cm.__aenter__()
+            second = WIDE[0]()
+            marks: list = []
+            try:
+                if case["factory"]:
+                    ctx.add_resource_factory(lambda: second, NAME, types=WIDE[:n])
+                else:
+                    ctx.add_resource(second, NAME, types=WIDE[:n], teardown_callback=lambda: marks.append(1))
+            except ResourceConflict:
+                pass
+            except Exception as exc:
+                disc("conflict", "wrong-exception", f"the second registration raised {short_exc(exc)}, expected ResourceConflict")
+            else:
+                disc("conflict", "not-raised", "the second registration succeeded although one of its pairs was taken")
+            sentinel = ResourceEvent((), "__verif_sentinel__", None, False)
+            ctx.resource_added.dispatch(sentinel)
+            events = []
+            while True:
+                ev = await it.__anext__()
+                if ev is sentinel:
+                    break
+                events.append(ev)
+            await cm.__aexit__(None, None, None)
+            if events:
+                disc("atomicity", "event", f"the refused registration dispatched {len(events)} event(s)")
+                disc("event", "event", f"the refused registration dispatched {len(events)} event(s)")
+            for j in range(n):
+                got = ctx.get_resource_nowait(WIDE[j], NAME, optional=True)
+                want = first if j == k else None
+                if got is not want:
+                    cls = "identity" if j == k else "atomicity"
+                    disc(cls, "registry", f"afterwards (W{j}, {NAME!r}) resolves to {'the second object' if got is second else got!r}, "
+                         f"expected {'the first object' if j == k else 'nothing'}")
+                    break
+        if marks:
+            disc("atomicity", "teardown-ran", "the teardown callback of the refused registration ran")
+
+    try:
+        run_virtual(case["backend"], main, sched_seed=case.get("sched_seed", 0))
+    except Deadlock as exc:
+        disc("conflict", "deadlock", f"deadlocked: {exc}")
+    except HarnessError:
+        raise
+    except BaseException as exc:
+        if any(innermost_is_harness(leaf) for leaf in flatten_exc(exc)):
+            raise HarnessError(f"harness exception inside the run: {short_exc(exc)}") from exc
+        disc("conflict", "history-raised:" + type(exc).__name__, f"history raised {short_exc(exc)}")
+    out.labels = sorted({case["backend"], "many-types", f"types={n}"})
+    out.nontrivial = True
+    out.trace = {"wide": True}
+    return out
+
+
 def retry_cases(backends: tuple = ("asyncio", "trio")):
     """An async factory whose first call fails while other lookups of the same pair are already waiting."""
     for racers in (2, 3, 4):
@@ -394,6 +478,8 @@ def run_case(case: dict, prop: str, classes: set[str]) -> Outcome:
         return run_chain(case, prop, classes)
     if case.get("family") == "retry":
         return run_retry(case, prop, classes)
+    if case.get("family") == "wide":
+        return run_wide(case, prop, classes)
     out = Outcome()
     st: dict[str, Any] = {"calls": 0, "inner_errors": [], "harness_exc": None}
     ftypes, inner, t, api = case["ftypes"], case["inner"], case["t"], case["api"]
